@@ -64,6 +64,21 @@ Proof. exact null_propagates. Qed.
 Theorem C12_neg_null : forall sch r a, eval sch r a = Some SNull -> eval sch r (ENeg a) = Some SNull.
 Proof. exact neg_null. Qed.
 
+(* expressions are values: a column reference reads the cell at the position its NAME has in the schema of
+   the step where it is used, wherever the column stood in earlier frames of the chain; and it has the same
+   value in two frames that hold the same named cells in different column orders.  Hence re-using one
+   expression object in several steps of a chain, or in both operands of a union, cannot change a result
+   (the correspondence run re-uses Column objects for a third of its cases) *)
+Theorem C12_column_by_name : forall sch r n i,
+  nodup_names sch = true -> nth_error sch i = Some n ->
+  eval sch r (ECol n) = nth_error r i.
+Proof. exact column_by_name. Qed.
+Theorem C12_column_reordered : forall from to r r' n,
+  nodup_names from = true -> nodup_names to = true ->
+  reorder_row from to r = Some r' -> mem_name n to = true ->
+  eval to r' (ECol n) = eval from r (ECol n).
+Proof. exact eval_reordered_column. Qed.
+
 (* ====================================================================== relational operators *)
 
 (* filter keeps exactly the rows whose predicate is TRUE (not FALSE, not NULL), in order, with multiplicity *)
@@ -329,4 +344,15 @@ Example ex_sort_flags :
   option_map collect (step_simple one (OSort [(ECol nA, DDescNF); (ECol nB, DAscNL)] (AscList [true; false])) d0)
     = Some [r1; r2; r3; r0] /\
   option_map collect (step_simple one (OSort [(ECol nA, DAscNL)] (AscScalar false)) d0) = Some [r2; r0; r3; r1].
+Proof. vm_compute. repeat split. Qed.
+
+(* filter(b) . drop(a) . filter(b) with one predicate: the second use reads b at its NEW position;
+   UNION is positional: the names of the second operand are irrelevant *)
+Example ex_reuse_and_positional_union :
+  option_map collect (run_ops one d0 [OFilter (ECol nB); ODrop [nA]; OFilter (ECol nB)] d0)
+    = Some [[SNull; SBool true]; [SDbl (-0)%float; SBool true]] /\
+  option_map view (union one (mkdf [nA; nB] [[[SInt 1; SInt 2]]]) (mkdf [nB; nA] [[[SInt 30; SInt 3]]]))
+    = Some ([nA; nB], [[SInt 1; SInt 2]; [SInt 30; SInt 3]]) /\
+  option_map view (unionByName one (mkdf [nA; nB] [[[SInt 1; SInt 2]]]) (mkdf [nB; nA] [[[SInt 30; SInt 3]]]))
+    = Some ([nA; nB], [[SInt 1; SInt 2]; [SInt 3; SInt 30]]).
 Proof. vm_compute. repeat split. Qed.
